@@ -81,6 +81,40 @@ CLAIMS = {
         note=BASE_NOTE + "The accessor clause (unverified_footer only) is a compile-time fact covered with C18's probes.",
         technique="Lean 4 proof (trace semantics of the pipeline + acceptance iff) + recording-decoder correspondence",
         design="§6 C12"),
+    "C05": dict(
+        text=("Generic PIE / PBKW / PKE skeletons with round-trip and length theorems (pie_roundtrip, pie_len, pbkw_roundtrip, pbkw_len, pke_roundtrip incl. blob length) for every instantiation with the laws; "
+              "PIE and PBKW concrete instances need no hypothesis; PKE needs decap(encap) = context (DH / RSA correctness, PkeLaws) and the fixed encapsulation length, proved for the concrete X25519 and padded RSA-KEM instances; "
+              "kem_ct_padded decided on cfgOf. Tie: library wraps (own randomness) round-tripped with length check on all back ends incl. thousands of RSA-KEM seals; library blobs unwrapped by the model."),
+        note=BASE_NOTE + "DH / RSA correctness of the primitives is a hypothesis (PkeLaws.decap_encap), validated by two-way correspondence (model seals -> library unseals, library seals -> model unseals).",
+        technique="Lean 4 proof (generic skeleton + laws) + own-RNG round-trip oracle + differential correspondence",
+        design="§6 C05"),
+    "C06": dict(
+        text=("Exact acceptance characterisations pieUnwrap_ok_iff / pbkwUnwrap_ok_iff / pkeUnseal_ok_iff for every back end (accepted IFF exact widths and tag = MAC under the derived key of version||header||nonce-or-prefix||ciphertext "
+              "resp. header||encapsulation||encrypted key), injectivity of the concatenated MAC input from fixed widths + prefix-free headers (auth_input_injective, wrap_headers_prefix_free from C10), reduction to MAC forgery. "
+              "Tie: ~2.8k mutants / relabels / foreign secrets per run rejected by library and model."),
+        note=BASE_NOTE + "Unforgeability is a hypothesis. Known finding (recorded): k1/k3 PBKW accepts a password differing only by trailing zero bytes (HMAC key padding of the prescribed PBKDF2) - a KDF collision in the theorem's terms.",
+        technique="Lean 4 proof (iff characterisations + injectivity + reduction) + mutation correspondence",
+        design="§6 C06"),
+    "C07": dict(
+        text=("pie/pbkw/pke_impl_eq_spec under a decidable Conforms predicate on cfgOf; counters_full_width, kem_padded decided; sibling theorems (pie_siblings; PBKW siblings agree on the common parameter domain, and exactly where they differ is stated). "
+              "Tie: pie.re / pw.re (model re-wraps with the embedded nonce/salt/params and must reproduce the library's bytes), specification-built blobs incl. all-ones / ff..fe counter blocks unwrapped by every back end, "
+              "siblings unwrap each other's output, model-sealed keys unsealed by the library (X25519, P-384 ECDH, RSA-KEM)."),
+        note=BASE_NOTE + "v4 vs v4-sodium differ on Argon2 parameters outside the common domain (p != 1, memory not a multiple of 1024): recorded in DESIGN as a back-end restriction, both are modelled (argonParallel, argonMemMod1024).",
+        technique="Lean 4 proof (impl = spec under decidable conformance) + re-wrap bit-exactness correspondence + two-stage spec-built blobs",
+        design="§6 C07"),
+    "C08": dict(
+        text=("keyDecodeWith mirrors every back end's acceptance checks on canonical encodings: decode_returns_input / decode_idempotent for all kinds whose decoder keeps the bytes, decode_idempotent_p384 under the point-compression law, "
+              "exact lengths, scalar range, ed_public_half_consistent, off-curve / infinity rejection under cfg flags with the flags decided on cfgOf (all_check_on_curve, all_reject_infinity, all_check_public_half). "
+              "Tie: 5.5k key byte strings per run (every length 0..128 x 5 kinds x 6 back ends, boundary scalars, every point-encoding class, PEM/DER) compared with the model; o.key / o.keypair oracles for idempotence, clone, text, derived public key."),
+        note=BASE_NOTE + "Known finding (recorded): Ed25519 small-order points incl. the identity are accepted (required by the official PASERK vectors). RSA key validation and DER are modelled from the rsa crate's rules.",
+        technique="Lean 4 proof (case analysis of decoders; decide over cfgOf) + exhaustive-length correspondence",
+        design="§6 C08"),
+    "C13": dict(
+        text=("keyId = hash33(version || id header || canonical PASERK text) by definition of the model tied to the code; id_len, id_sibling_eq, id_stable_text, id_of_equal_canonical, id_inputs_distinct (domain separation from prefix-free id headers), "
+              "keyid_text_roundtrip, keyid_33, keyid_eq_iff_text_eq. Tie: ids of all key classes on all back ends byte-compared with the model (SHA-384 / BLAKE2b in Lean), PEM vs DER, compressed vs uncompressed, related keys distinct, Eq/Ord/Hash vs bytes."),
+        note=BASE_NOTE + "Distinctness of ids of different kinds reduces to hash collision resistance (stated, not claimed).",
+        technique="Lean 4 proof + differential correspondence on real hashes",
+        design="§6 C13"),
 }
 
 def main():
